@@ -45,6 +45,10 @@ type Item struct {
 	Name string
 }
 
+type ID int64
+
+func QueryParamInt[T ~int64](c echo.Context, name string) T { return 0 }
+
 func Handle(c echo.Context) error {
 	var in Item
 	if err := c.Bind(&in); err != nil {
@@ -99,6 +103,15 @@ func c13Handler(tag string, k int) c13Route {
 		r.body = decl("", "\tf, _ := c.FormFile(\"doc\")\n\tv := c.FormValue(\"note"+tag+"\")\n\tvar meta Input\n\terr := FormValueJSON(c, \"meta\", &meta)\n\t_, _, _ = f, v, err\n\tdata := []byte{1}\n\treturn c.Blob(200, \"x\", data)\n")
 		r.file, r.values, r.jsonName, r.jsonType = "doc", []string{"note" + tag}, "meta", "Input"
 		r.blob = true
+	case 6: // a generic typed helper of an imported package, explicitly instantiated
+		r.handler, r.name = name, name
+		r.body = decl("", "\tid := inner.QueryParamInt[inner.ID](c, \"gid"+tag+"\")\n\tn := QueryParamInt[int64](c, \"n\")\n\t_, _ = id, n\n\treturn c.NoContent(200)\n")
+		r.queries, r.qkinds = []string{"gid" + tag, "n"}, []string{"example.com/mod/inner.ID", "int64"}
+	case 7: // an early answer inside a condition, before the inputs read later
+		r.handler, r.name = name, name
+		r.body = decl("", "\tquick := c.QueryParam(\"fast\")\n\tif quick != \"\" {\n\t\treturn c.JSON(200, Output{})\n\t}\n\tvar in Input\n\tif err := c.Bind(&in); err != nil {\n\t\treturn err\n\t}\n\tlater := c.QueryParam(\"later"+tag+"\")\n\t_ = later\n\treturn c.JSON(200, Output{})\n")
+		r.input, r.ret = "Input", "Output"
+		r.queries, r.qkinds = []string{"fast", "later" + tag}, []string{"string", "string"}
 	default: // method with a bool query parameter
 		r.handler, r.name = "ct."+name, name
 		r.body = decl("(ct *controller) ", "\tok := QueryParamBool(c, \"ok\")\n\t_ = ok\n\treturn c.NoContent(200)\n")
@@ -136,7 +149,7 @@ func HC13_parseEcho() {
 	verbs := []string{"GET", "POST", "PUT", "DELETE"}
 	for i := 0; i < n; i++ {
 		tag := fmt.Sprint(i)
-		r := c13Handler(tag, vfChoice("handler"+tag, 6))
+		r := c13Handler(tag, vfChoice("handler"+tag, 8))
 		r.verb = verbs[vfChoice("verb"+tag, 4)]
 		pk := vfChoice("path"+tag, 5)
 		r.pathExpr, r.url = c13Path(tag, pk)
@@ -153,7 +166,7 @@ func HC13_parseEcho() {
 	}
 	src := "package routes\n\nimport (\n\t\"example.com/mod/echo\"\n\t\"example.com/mod/inner\"\n)\n\n" +
 		"const base = \"/api\"\n\n" + pkgConsts + "\ntype Input struct {\n\tA int\n\tB string\n}\n\ntype Output struct {\n\tC bool\n}\n\ntype controller struct{}\n\n" +
-		"func QueryParamInt64(c echo.Context, name string) int64 { return 0 }\nfunc QueryParamBool(c echo.Context, name string) bool { return false }\n" +
+		"func QueryParamInt64(c echo.Context, name string) int64 { return 0 }\nfunc QueryParamInt[T ~int64](c echo.Context, name string) T { return 0 }\nfunc QueryParamBool(c echo.Context, name string) bool { return false }\n" +
 		"func FormValueJSON(c echo.Context, name string, dst interface{}) error { return nil }\n\nvar _ = inner.Prefix\n\n" +
 		decls + "\nfunc setup(e *echo.Echo, ct *controller) {\n" + locals + "\te.Group(\"/not-a-route\", nil)\n" + regs + "}\n"
 	pkg := vfTypeCheck("example.com/mod/routes", []string{"/m/routes/routes.go"}, []string{src}, []*packages.Package{echo, inner})
